@@ -7,6 +7,10 @@ for p in sorted(glob.glob("/verif/seeded/*/meta.json")):
     diff = open(os.path.join(os.path.dirname(p), "patch.diff")).read()
     files = sorted(set(re.findall(r"^\+\+\+ b/src/qce_circuit/(\S+)", diff, re.M)))
     note = m.get("note", "")
+    if m.get("status_on_head"):
+        note = (note + " " if note else "") + f"**On today's HEAD: {m['status_on_head']}** - {m['status_on_head_note']}"
+    if os.path.exists(os.path.join(os.path.dirname(p), "patch_head.diff")):
+        note = (note + " " if note else "") + "(patch_head.diff: the same change re-applied by hand on today's code; tests pass and the author's demonstration still fails with it)"
     rows.append(f"| {m['seed_id']} | {', '.join(os.path.basename(f) for f in files)} | {m.get('needs_to_manifest','')} | "
                 f"{', '.join(m['caught_by'])}{' (target check: yes)' if m['caught_by_target_check'] else ' (**target check: no**)'} | {note} |")
 table = ("| seed | file changed | what it needs to manifest | checks that report it (quick tier, seed 1) | history |\n|---|---|---|---|---|\n" + "\n".join(rows))
